@@ -18,6 +18,8 @@ pub(crate) fn parse_ifdata(
 ) -> Result<(Option<GenericIfData>, bool), ParserError> {
     let mut result = None;
     let mut valid = false;
+    // comments are not preserved inside IF_DATA; a leading comment must not influence how the content is parsed
+    skip_comments(parser, context)?;
     // is there any content in the IF_DATA?
     if let Some(token) = parser.peek_token() {
         if token.ttype != A2lTokenType::End {
@@ -44,6 +46,19 @@ pub(crate) fn parse_ifdata(
     Ok((result, valid))
 }
 
+// skip_comments()
+// consume all comment tokens at the current position
+fn skip_comments(parser: &mut ParserState, context: &ParseContext) -> Result<(), ParserError> {
+    while let Some(A2lToken {
+        ttype: A2lTokenType::Comment,
+        ..
+    }) = parser.peek_token()
+    {
+        parser.get_token(context)?;
+    }
+    Ok(())
+}
+
 // parse_ifdata_from_spec()
 // parse the items of an IF_DATA block according to a spec.
 // If parsing fails, the token cursor is set back to the beginning of the input so that parsing can be retried
@@ -54,6 +69,8 @@ fn parse_ifdata_from_spec(
 ) -> Option<GenericIfData> {
     let pos = parser.get_tokenpos();
     if let Ok(ifdata) = parse_ifdata_item(parser, context, spec) {
+        // a comment between the last item and /end does not make the content invalid
+        let _ = skip_comments(parser, context);
         if let Some(A2lToken {
             ttype: A2lTokenType::End,
             ..
